@@ -185,6 +185,17 @@ def break_ops(m: Mol, rnd):
                 if hasattr(t, "_chem"):
                     del t._chem
             yield (f"prefix-mismatch-{how}", m2.text(), "generate")
+        # ... the same misuse written the other way round: the left terminal differs from everything else
+        for how in ("symbol", "id"):
+            if any(d.implicit for d in m.elems[0].descs):
+                break      # an automatically inserted descriptor follows the left terminal: nothing is mismatched
+            m2 = copy.deepcopy(m)
+            lt = m2.elems[1].left
+            if how == "symbol":
+                lt.sym = {"$": "<", "<": "$", ">": "$"}[lt.sym]
+            else:
+                lt.id = 7 if lt.id != 7 else 3
+            yield (f"left-terminal-differs-{how}", m2.text(), "generate")
     # unbalanced braces / brackets
     yield ("unbalanced-brace", base.replace("}", "", 1), "generate")
     i = base.find("]")
